@@ -53,6 +53,53 @@ Lemma pick_detected input force e x :
   pick_encoding None force input true = PEnc e.
 Proof. intros H C. unfold pick_encoding. now rewrite H, C. Qed.
 
+
+(* ------------------------------------------------------------------ more default-UTF-8 shapes at the end of input *)
+(* '@' in front, but not the head of an @charset rule, and no NUL behind it *)
+Lemma default_utf8_at r :
+  starts prefix (64 :: r)%N = false -> match r with b1 :: _ => b1 <> 0%N | [] => True end ->
+  detectencoding_str (64 :: r)%N true = Some (Some utf8, false).
+Proof.
+  intros Hs Hb1. destruct r as [|b1 [|b2 [|b3 r]]].
+  - reflexivity.
+  - rewrite detect_2. unfold C2. sp1 b1; try contradiction; done_leaf.
+  - rewrite detect_3. unfold C3. sp1 b1; try contradiction; try solve [done_leaf]; sp2 b2; done_leaf.
+  - to4. sp1 b1; try contradiction; try solve [done_leaf]; sp2 b2; try solve [done_leaf]; sp3 b3; try solve [done_leaf].
+    replace (Z.land _ _) with 512%Z by (vm_compute; reflexivity).
+    rewrite post_charset. unfold charset_branch. now rewrite Hs.
+Qed.
+
+Definition bom_utf8 : str := [239; 187; 191]%N.
+
+(* ef in front, but not the UTF-8 BOM *)
+Lemma default_utf8_ef r :
+  starts bom_utf8 (239 :: r)%N = false -> detectencoding_str (239 :: r)%N true = Some (Some utf8, false).
+Proof.
+  intros Hs. destruct r as [|b1 [|b2 [|b3 r]]].
+  - reflexivity.
+  - rewrite detect_2. unfold C2. sp1 b1; done_leaf.
+  - rewrite detect_3. unfold C3. sp1 b1; try solve [done_leaf]; sp2 b2; try solve [done_leaf]. discriminate Hs.
+  - to4. sp1 b1; try solve [done_leaf]; sp2 b2; try solve [done_leaf]; [discriminate Hs|..]; sp3 b3; done_leaf.
+Qed.
+
+(* the byte strings on which the detector answers "UTF-8, implicitly" at the end of input, as far as needed here *)
+Definition default_shape (b : str) : Prop :=
+  match b with
+  | [] => True
+  | b0 :: r =>
+    (b0 <> 239 /\ b0 <> 255 /\ b0 <> 254 /\ b0 <> 64 /\ b0 <> 0)%N
+    \/ (b0 = 64%N /\ starts prefix b = false /\ match r with b1 :: _ => b1 <> 0%N | [] => True end)
+    \/ (b0 = 239%N /\ starts bom_utf8 b = false)
+  end.
+
+Lemma default_shape_detect b : default_shape b -> detectencoding_str b true = Some (Some utf8, false).
+Proof.
+  destruct b as [|b0 r]; [reflexivity|]. intros [[H1 [H2 [H3 [H4 H5]]]]|[[-> [Hs Hb]]|[-> Hs]]].
+  - now apply default_utf8_first.
+  - now apply default_utf8_at.
+  - now apply default_utf8_ef.
+Qed.
+
 Section Inverse.
   Variable dshot : str -> str -> res str.      (* codecs.getdecoder(name)(bytes)[0] *)
   Variable eshot : str -> str -> res str.      (* codecs.getencoder(name)(text)[0] *)
@@ -114,19 +161,18 @@ Section Inverse.
     rewrite (fix_rename _ _ utf16 true Hq). reflexivity.
   Qed.
 
-  (* (B) no leading rule: UTF-8 both ways, the text comes back unchanged *)
+  (* (B) no leading rule: UTF-8 both ways, the text comes back unchanged.  The premise on the bytes covers texts that
+         begin with '@' (at-import, at-media, ...) as long as they are not the head of an @charset rule *)
   Theorem decode_encode_norule_thm t b force :
     starts prefix t = false ->
     (forall x y, eshot utf8 x = Ok y -> dshot utf8 y = Ok x) ->
-    (b = [] \/ exists b0 r, b = b0 :: r /\ b0 <> 239 /\ b0 <> 255 /\ b0 <> 254 /\ b0 <> 64 /\ b0 <> 0)%N ->
+    default_shape b ->
     encode eshot t None = Ok b ->
     decode dshot b None force = Ok t.
   Proof.
     intros Hs Hinv Hb0. unfold encode. rewrite (detectu_norule _ Hs). cbn [fst].
     rewrite is_sig_utf8. unfold encode_with. change (is_css utf8) with false. cbv iota. intros Hb.
-    assert (Hd : detectencoding_str b true = Some (Some utf8, false)).
-    { destruct Hb0 as [->|[b0 [r [-> [H1 [H2 [H3 [H4 H5]]]]]]]]; [reflexivity|]. now apply default_utf8_first. }
-    rewrite (decode_detected_general _ force utf8 false _ Hd eq_refl (Hinv _ _ Hb)).
+    rewrite (decode_detected_general _ force utf8 false _ (default_shape_detect _ Hb0) eq_refl (Hinv _ _ Hb)).
     now rewrite (fix_norule _ _ Hs).
   Qed.
 
